@@ -100,7 +100,7 @@ fn $name() {
 // @harness c01_l2_entries_lookup
 // @props C01 C09
 // @tier quick
-// @cost 120
+// @cost 411
 // @mem 24
 // @timeout 1500
 // @needs GE
